@@ -31,7 +31,7 @@ Core Lean only.
 import NriModel.ApiTypes
 
 namespace Nri.Result
-open Nri.Api
+open Nri.NApi
 
 /-- The ownable items of one container. -/
 inductive Item
@@ -260,7 +260,7 @@ def argsData (st : State) (args : List Str) : State :=
     let args' := if a = [] then rest else a :: rest
     { st with reply := { st.reply with args := args' }, view := { st.view with args := args' } }
 
-def _root_.Nri.Api.Hooks.append (a b : Hooks) : Hooks :=
+def _root_.Nri.NApi.Hooks.append (a b : Hooks) : Hooks :=
   { prestart := a.prestart ++ b.prestart, createRuntime := a.createRuntime ++ b.createRuntime,
     createContainer := a.createContainer ++ b.createContainer,
     startContainer := a.startContainer ++ b.startContainer,
